@@ -656,7 +656,10 @@ def C20(run):
             keys = [k for k in po if k in ('arithmetic', 'precision', 'guard', 'display', 'omega', 'defeat_batch', 'integer_quota') and rng.random() < 0.7]
             if keys:
                 po['_file'] = {k: str(po.pop(k)).lower() for k in keys}
-        items.append((hist, (gen.plain(rng, maxc=6, maxb=8, undeclared=(rule == 'mpls')), po)))
+        pp = gen.plain(rng, maxc=6, maxb=8, undeclared=(rule == 'mpls'))
+        if rule in ('meek', 'warren') and rng.random() < 0.6:
+            pp = gen.add_equal_ranks(rng, pp)          # equal rankings: the rules keep per-profile rank lists
+        items.append((hist, (pp, po)))
     res = common.pmap(_history, items, limit=60.0, chunksize=4)
     fresh = fresh_digests([probe for _, probe in items])
     nb = 0
